@@ -9,9 +9,12 @@ line protocol (tokens separated by blanks, groups by `|`):
     q <family> <ints…> | <scalar params…> | <points…>      Rat    (scalars as p/q)
     abc  n | α β          / qabc n | α β                  recurrence coefficients A B C
     fgh n                                                   Qbfs auxiliary f_n g_n h_n (Float)
+    q2dabc n m    2D-Q recurrence coefficients A B C (A.3)     q2dgam n m    gamma(n, m)
+    q2dFG n m     2D-Q auxiliary F_n^m G_n^m f_n^m g_n^m (Float)
 
 families (ints ; scalar params):  jacobi n ; α β    legendre n    cheby1..4 n    he n    h n    lag n ; α
     d1 n ; a    d2 n ; a    qcon n    xy m n ; y    (Float only:)  qbfs n    zern n m norm ; t    hopkins a b c ; t H
+    q2d n m ; t     (the point is the radial coordinate)
 -/
 
 def splitBar (t : List String) : List (List String) :=
@@ -47,6 +50,10 @@ def evalFloat (fam : String) (ip : List Int) (kp : List Float) (x : Float) : Opt
       let az := if m < 0 then Float.sin (am * t) else Float.cos (Float.ofInt m * t)
       let σ := if norm = 0 then 1.0 else Float.sqrt (zernikeNormSq n.toNat m)
       some (zernike n.toNat m x az σ)
+  | "q2d", [n, m], [t] =>
+      let am := Float.ofInt m.natAbs
+      let az := if m < 0 then Float.sin (am * t) else Float.cos (am * t)
+      some (q2d Float.sqrt n.toNat m x az)
   | "hopkins", [a, b, c], [t, H] =>
       let az := if a < 0 then Float.sin (Float.ofInt a.natAbs * t) else Float.cos (Float.ofInt a * t)
       some (hopkins b.toNat c.toNat az x H)
@@ -82,6 +89,18 @@ def step (t : List String) : String :=
     match n.toNat?, parseRat? a, parseRat? b with
     | some n, some a, some b => let (A, B, C) := abc (K := Rat) n a b; fmtList fmtRat [A, B, C]
     | _, _, _ => "bad-op"
+  | ["q2dabc", n, m] =>
+    match n.toNat?, m.toNat? with
+    | some n, some m => let (A, B, C) := q2dAbcK (Float.ofNat n) (Float.ofNat m); fmtList fmtFloat [A, B, C]
+    | _, _ => "bad-op"
+  | ["q2dgam", n, m] =>
+    match n.toNat?, m.toNat? with
+    | some n, some m => fmtList fmtFloat [(q2dGamma n m : Float)]
+    | _, _ => "bad-op"
+  | ["q2dFG", n, m] =>
+    match n.toNat?, m.toNat? with
+    | some n, some m => fmtList fmtFloat [(q2dF n m : Float), q2dG n m, q2df Float.sqrt n m, q2dg Float.sqrt n m]
+    | _, _ => "bad-op"
   | ["fgh", n] =>
     match n.toNat? with
     | some n => fmtList fmtFloat [qbfsF Float.sqrt n, qbfsG Float.sqrt n, qbfsH n (qbfsF Float.sqrt n)]
